@@ -191,21 +191,35 @@ func (d *declA) kase(name string, mask int, want string) kase {
 	return k
 }
 
-func sigAndHash(ev dig.Event) (sig string, hash []byte, panicked string) {
+const otherSig = "Other(int8,(bool,string)[])"
+
+var (
+	otherEvent = dig.Event{Name: "Other", Type: "event", Inputs: []dig.Input{{Name: "a", Type: "int8"}, {Name: "b", Type: "tuple[]", Components: []dig.Input{{Name: "c", Type: "bool"}, {Name: "d", Type: "string"}}}}}
+)
+
+// sigAndHash: Signature and SignatureHash of ev (hash = copy of the returned bytes); overwritten != ""
+// when the returned slice changed while another event was hashed.
+func sigAndHash(ev dig.Event) (sig string, hash []byte, overwritten, panicked string) {
 	defer func() {
 		if r := recover(); r != nil {
 			panicked = fmt.Sprint(r)
 		}
 	}()
 	sig = ev.Signature()
-	hash = ev.SignatureHash()
+	h := ev.SignatureHash()
+	hash = append([]byte(nil), h...) // content at the time it was returned
+	// hold the returned slice, hash another event, look again
+	_ = otherEvent.SignatureHash() // judged as a declaration of its own elsewhere; here it only disturbs
+	if !bytes.Equal(h, hash) {
+		overwritten = fmt.Sprintf("held %x when returned, holds %x after SignatureHash of %s", hash, h, otherSig)
+	}
 	return
 }
 
 // evalA judges one (name, declaration, indexed layout). Returns true when it held.
 func evalA(c *fw.Ctx, d *declA, name string, mask int, want string, wantHash []byte) bool {
 	ev := d.event(name, mask)
-	got, gotHash, p := sigAndHash(ev)
+	got, gotHash, ow, p := sigAndHash(ev)
 	decl := func() string { b, _ := json.Marshal(ev); return string(b) }
 	switch {
 	case p != "":
@@ -214,7 +228,7 @@ func evalA(c *fw.Ctx, d *declA, name string, mask int, want string, wantHash []b
 	case got != want:
 		key := "sig:canonical-mismatch/" + d.feature
 		if mask != 0 {
-			if got0, _, p0 := sigAndHash(d.event(name, 0)); p0 == "" && got0 == want {
+			if got0, _, _, p0 := sigAndHash(d.event(name, 0)); p0 == "" && got0 == want {
 				key = "sig:indexed-changes-signature"
 			}
 		}
@@ -226,6 +240,9 @@ func evalA(c *fw.Ctx, d *declA, name string, mask int, want string, wantHash []b
 	case !bytes.Equal(gotHash, wantHash):
 		c.Outcome("A:hash-mismatch")
 		c.Violation(prop, "mismatch", "hash:not-keccak256-of-signature", fmt.Sprintf("SignatureHash() = %x, Keccak-256(%q) = %x", gotHash, want, wantHash), d.kase(name, mask, want))
+	case ow != "":
+		c.Outcome("A:hash-overwritten")
+		c.Violation(prop, "mismatch", "hash:earlier-result-overwritten", fmt.Sprintf("the slice returned by SignatureHash() of %q %s", want, ow), d.kase(name, mask, want))
 	default:
 		c.Outcome("A:ok/" + d.feature)
 		return true
@@ -394,7 +411,7 @@ func judgeLiteral(c *fw.Ctx, part string, idx int, decl, wantSig, published stri
 	c.Eval(hasTupleOrArray(ev))
 	c.Count(part+"_literals", 1)
 	k := kase{Part: part, Index: idx, Sig: wantSig}
-	got, gotHash, p := sigAndHash(ev)
+	got, gotHash, ow, p := sigAndHash(ev)
 	sigKey, hashKey := "sig:edge-declaration", "hash:not-keccak256-of-signature"
 	if part == "K" {
 		sigKey, hashKey = "sig:published-signature", "hash:published-vector"
@@ -409,6 +426,9 @@ func judgeLiteral(c *fw.Ctx, part string, idx int, decl, wantSig, published stri
 	case !bytes.Equal(gotHash, wantHash):
 		c.Outcome(part + ":hash-mismatch")
 		c.Violation(prop, "mismatch", hashKey, fmt.Sprintf("SignatureHash() = %x, topic0 of %q is %x", gotHash, wantSig, wantHash), k)
+	case ow != "":
+		c.Outcome(part + ":hash-overwritten")
+		c.Violation(prop, "mismatch", "hash:earlier-result-overwritten", fmt.Sprintf("the slice returned by SignatureHash() of %q %s", wantSig, ow), k)
 	default:
 		c.Outcome(part + ":ok")
 	}
